@@ -470,11 +470,26 @@ pub fn record(args: &[String]) -> i32 {
                     continue;
                 }
             }
+            // every fourth recorded call of an unscripted history is preceded by a SILENT one: made, its return value kept,
+            // and nothing read from the document before the recorded call runs (what an implementation leaves pending -
+            // a renumbering - is then still pending)
+            let mut silent: Option<(J, J)> = None;
+            if !with_c15 && !merged && step >= script.len() && rng.gen_range(0..4) == 0 {
+                let c0 = random_call(&w, &mut rng);
+                if c0["op"] != "split_text" && c0["op"] != "set_value" {
+                    heartbeat(|| json!({"event": "crash", "call": c0, "calls": hist}).to_string());
+                    hist.push(c0.clone());
+                    let o0 = w.exec_mut(&c0);
+                    silent = Some((c0, o0));
+                }
+            }
             heartbeat(|| json!({"event": "crash", "call": c, "calls": hist}).to_string());
             hist.push(c.clone());
             let outc = w.exec_mut(&c);
             let post = w.project();
-            if merged {
+            if let Some((c0, o0)) = &silent {
+                writeln!(out, "{}", json!({"event": "call", "burst": true, "silent": c0, "silent_out": o0, "call": c, "out": outc, "pre": pre, "post": post})).unwrap();
+            } else if merged {
                 writeln!(out, "{}", json!({"event": "call", "merged": true, "call": c, "out": outc, "pre": pre, "post": post})).unwrap();
             } else {
                 writeln!(out, "{}", json!({"event": "call", "call": c, "out": outc, "pre": pre, "post": post})).unwrap();
